@@ -1362,7 +1362,7 @@ func (c *Converter) toFiles(v vocabulary) (f []*File, e error) {
 		file.Add(i.Definition().Definition())
 		f = append(f, &File{
 			F:         file,
-			FileName:  fmt.Sprintf("gen_property_%s_%s.go", vName, i.PropertyName()),
+			FileName:  implFileName("property", vName, i.PropertyName()),
 			Directory: priv.WriteDir(),
 		})
 		// Interface
@@ -1389,7 +1389,7 @@ func (c *Converter) toFiles(v vocabulary) (f []*File, e error) {
 		file.Add(s.Definition()).Line().Add(t.Definition())
 		f = append(f, &File{
 			F:         file,
-			FileName:  fmt.Sprintf("gen_property_%s_%s.go", vName, i.PropertyName()),
+			FileName:  implFileName("property", vName, i.PropertyName()),
 			Directory: priv.WriteDir(),
 		})
 		// Interface
@@ -1417,7 +1417,7 @@ func (c *Converter) toFiles(v vocabulary) (f []*File, e error) {
 		file.Add(i.Definition().Definition())
 		f = append(f, &File{
 			F:         file,
-			FileName:  fmt.Sprintf("gen_type_%s_%s.go", vName, strings.ToLower(i.TypeName())),
+			FileName:  implFileName("type", vName, strings.ToLower(i.TypeName())),
 			Directory: priv.WriteDir(),
 		})
 		// Interface
@@ -1431,6 +1431,27 @@ func (c *Converter) toFiles(v vocabulary) (f []*File, e error) {
 		})
 	}
 	return
+}
+
+// goToolFileNameSuffixes are the words that, at the end of a Go file name,
+// make the go tool treat the file as a test or constrain it to an operating
+// system or an architecture.
+var goToolFileNameSuffixes = map[string]bool{
+	"test": true,
+	// GOOS
+	"aix": true, "android": true, "darwin": true, "dragonfly": true, "freebsd": true, "hurd": true, "illumos": true, "ios": true, "js": true, "linux": true, "nacl": true, "netbsd": true, "openbsd": true, "plan9": true, "solaris": true, "wasip1": true, "windows": true, "zos": true,
+	// GOARCH
+	"386": true, "amd64": true, "amd64p32": true, "arm": true, "armbe": true, "arm64": true, "arm64be": true, "loong64": true, "mips": true, "mipsle": true, "mips64": true, "mips64le": true, "mips64p32": true, "mips64p32le": true, "ppc": true, "ppc64": true, "ppc64le": true, "riscv": true, "riscv64": true, "s390": true, "s390x": true, "sparc": true, "sparc64": true, "wasm": true,
+}
+
+// implFileName returns the name of the file holding the implementation of a
+// type or property. A name the go tool would read as a build constraint gets
+// a neutral last element.
+func implFileName(kind, vocabName, name string) string {
+	if goToolFileNameSuffixes[name] {
+		return fmt.Sprintf("gen_%s_%s_%s_impl.go", kind, vocabName, name)
+	}
+	return fmt.Sprintf("gen_%s_%s_%s.go", kind, vocabName, name)
 }
 
 // typeNamer bridges rdf.VocabularyType and gen.TypeGenerator.
